@@ -67,7 +67,8 @@ def judge(obs: list, scratch: Path):
     for ow, cfgname in ((False, 'SaveObs_first.cfg'), (True, 'SaveObs_ow.cfg')):
         part = [o for o in obs if bool(o['overwrite']) == ow]
         f = scratch / f'obs_{int(ow)}.ndjson'
-        keep = ('id', 'mode', 'overwrite', 'is_cached', 'listed', 'list_raises', 'load_ok', 'load_val', 'meta_val',
+        keep = ('id', 'mode', 'overwrite', 'is_cached', 'listed', 'list_raises', 'same_is_cached', 'same_listed',
+                'same_list_raises', 'load_ok', 'load_val', 'meta_val',
                 'rerun_applicable', 'rerun_ok', 'rerun_val', 'task_failed', 'fault_hit', 'fault_free', 'ops')
         tlc.dump_ndjson(f, [{k: o[k] for k in keep} for o in part])
         r = tlc.run_tlc('SaveObs', cfgname, scratch=scratch, workers=1, heap='2g', env={'LV_OBS': str(f)}, tag=f'so{int(ow)}')
@@ -102,7 +103,8 @@ def run(prop: str, tier: str) -> int:
                 scen = f'{"overwrite" if o["overwrite"] else "first-save"}/{o["fmt"]}/{o["shape"]}/{o["provider"]}/{o["backend"]}'
                 what = 'poisoned entry' if v['poison'] else 'save raised but the task was not reported failed'
                 fid = f'{scen}/{o["mode"]}@{o.get("op") or o["at"]}'
-                rep.violation(fid, f'{what}: is_cached={o["is_cached"]} listed={o["listed"]} list_raises={o["list_raises"]} '
+                rep.violation(fid, f'{what}: is_cached={o["is_cached"]} (saving Lab: {o["same_is_cached"]}) listed={o["listed"]} '
+                                   f'(saving Lab: {o["same_listed"]}) list_raises={o["list_raises"]} re-run by {o["rerun_by"]} Lab '
                                    f'load_ok={o["load_ok"]} load_val={o["load_val"]} rerun_ok={o["rerun_ok"]} files={o.get("files")}',
                               {'property': prop, 'kind': 'save-fault', 'job': {k: o[k] for k in ('fmt', 'shape', 'overwrite', 'provider', 'backend')},
                                'plan': {'mode': o['mode'], 'at': o['at']}, 'observation': o})
